@@ -115,6 +115,12 @@ void HttpServer::serve(Socket client)
 						// a position that does not fit an int is beyond any file served here: unsatisfiable, not taken modulo 2^32
 						int begin = first > 2147483647 ? 2147483647 : (int)first;
 						int end = last > 2147483647 ? 2147483647 : (int)last;
+						if (!parts[0].ok() && parts.length() > 1) // "bytes=-n": the last n bytes (all of the file when it is shorter)
+						{
+							Long size = file.size();
+							begin = last >= size ? 0 : (int)(size - last);
+							end = (last <= 0 || size == 0) ? -1 : (int)(size - 1); // no byte asked for, or none there: unsatisfiable
+						}
 						response.setCode(206);
 						response.setHeader("Content-Range", "+");
 						response.putFile(file.path(), begin, end);
